@@ -38,7 +38,7 @@ def add_lattice_universe(d, rng, u, next_id, new_universe, kind=None, lat_tr_p=0
             a, b, cc = G.scale(a, rng.choice([1., .5])), G.scale(b, rng.choice([1., .5])), G.scale(cc, rng.choice([1., .5]))
             d.surfs.append(D.Surf(sid, 'box', list(centre) + a + b + cc))
         else:
-            mn, ps = G.macrobody(rng, ['rhp9', 'rhp9', 'rhp15', 'hex'])
+            mn, ps = G.macrobody(rng, ['rhp9', 'rhp9', 'rhp15', 'hex'], irregular=False)
             d.surfs.append(D.Surf(sid, mn, list(centre) + ps[3:]))
         leaves = [('s', -sid)]
         dim = 3
